@@ -299,6 +299,11 @@ class NA:
                 if isinstance(i, (list, NA)):
                     # rows picked by an array of integer positions: a[idx, :]
                     ridx = list(i.data) if isinstance(i, NA) else list(i)
+                    if ridx and all(isinstance(c, bool) for c in ridx):
+                        # a[mask, :]
+                        if len(ridx) != self.shape[0]:
+                            raise IndexError(f"boolean index did not match indexed array along dimension 0; dimension is {self.shape[0]} but corresponding boolean dimension is {len(ridx)}")
+                        ridx = [k for k, c in enumerate(ridx) if c]
                     if not all(isinstance(c, int) and not isinstance(c, bool) for c in ridx) or not (isinstance(j, slice) and j == slice(None)):
                         raise Unsupported("row selection by something other than integer positions with all columns")
                     picked = [list(self.data[c]) for c in ridx]
@@ -346,6 +351,23 @@ class NA:
         if isinstance(key, int) and self.ndim == 1:
             self.data[key] = value
             return
+        if isinstance(key, tuple) and len(key) == 2 and self.ndim == 2 and not isinstance(value, NA):
+            # a[rows, cols] = scalar with two index sequences of equal length (cols as np.where hands it out: a tuple
+            # holding one index array): element-wise pairs
+            def seq(k):
+                if isinstance(k, tuple) and len(k) == 1:
+                    k = k[0]
+                if isinstance(k, NA) and k.ndim == 1:
+                    return [int(x) for x in k.data]
+                if isinstance(k, (range, list)):
+                    return [int(x) for x in k]
+                return None
+
+            r, c = seq(key[0]), seq(key[1])
+            if r is not None and c is not None and len(r) == len(c):
+                for i, j in zip(r, c):
+                    self.data[i][j] = value
+                return
         raise Unsupported("item assignment")
 
 
@@ -470,12 +492,28 @@ def np_sqrt(x):
     return NScalar(math.sqrt(x))
 
 
+def _np_where(mask, *rest):
+    if rest:
+        raise Unsupported("numpy.where with alternatives")
+    mask = mask if isinstance(mask, NA) else NA(mask)
+    if mask.ndim != 1:
+        raise Unsupported("numpy.where on a matrix")
+    idx = [i for i, k in enumerate(mask.data) if k]
+    return (NA(idx) if idx else _empty((0,)),)
+
+
+def _np_clip(a, lo, hi):
+    a = a if isinstance(a, NA) else NA(a)
+    return a._map(lambda x: (lo if (lo is not None and x < lo) else hi if (hi is not None and x > hi) else x))
+
+
 NUMPY = {
     "numpy.hstack": np_hstack, "numpy.allclose": np_allclose, "numpy.logical_not": np_logical_not, "numpy.any": np_any, "numpy.all": np_all, "numpy.sqrt": np_sqrt,
     "numpy.ceil": np_ceil, "numpy.floor": np_floor, "numpy.vstack": np_vstack, "numpy.concatenate": np_vstack,
     "numpy.array": np_array, "numpy.asarray": np_array, "numpy.atleast_2d": np_atleast_2d, "numpy.abs": np_abs, "numpy.absolute": np_abs,
     "numpy.minimum": np_minimum, "numpy.maximum": np_maximum, "numpy.repeat": np_repeat, "numpy.char.add": np_char_add,
     "numpy.logical_and": np_logical_and, "numpy.dtype": lambda *a, **k: None, "numpy.full": lambda shape, v, **k: NA([v] * (shape if isinstance(shape, int) else shape[0])),
-    "numpy.zeros": lambda n, **k: NA([0.0] * (n if isinstance(n, int) else n[0])), "numpy.ones": lambda n, **k: NA([1.0] * (n if isinstance(n, int) else n[0])),
+    "numpy.zeros": lambda n, **k: (NA([[0.0] * int(n[1]) for _ in range(int(n[0]))]) if int(n[0]) else _empty((0, int(n[1])))) if isinstance(n, tuple) and len(n) == 2 else NA([0.0] * int(n if not isinstance(n, tuple) else n[0])),
+    "numpy.where": lambda mask, *rest: _np_where(mask, *rest), "numpy.clip": lambda a, lo, hi, **k: _np_clip(a, lo, hi), "numpy.ones": lambda n, **k: NA([1.0] * (n if isinstance(n, int) else n[0])),
     "numpy.dot": lambda a, b: (a if isinstance(a, NA) else NA(a)).dot(b),
 }
